@@ -37,6 +37,7 @@ def parseStmt (j : Json) : Except String Stmt := do
   let a ← J.arr j
   match a with
   | [.str "new", x, t, c] => do .ok (.new (← J.nat x) (← J.term t) (← J.gq c))
+  | [.str "zero", x] => do .ok (.zero (← J.nat x))
   | [.str "alias", x, y] => do .ok (.alias (← J.nat x) (← J.nat y))
   | [.str "bin", x, o, y, z] => do .ok (.bin (← J.nat x) (← parseBin o) (← J.nat y) (← J.nat z))
   | [.str "sbin", x, o, y, c] => do .ok (.sbin (← J.nat x) (← parseSOp o) (← J.nat y) (← J.gq c))
